@@ -53,7 +53,10 @@ CLAIMED = {
              "readings of an index - before/after coalescing - are accepted). The lock is a counter (translator obligation "
              "c04_lock_is_counter over __init__/__enter__/__exit__) and for every properly nested use of `with _wrapper_cache:` "
              "it equals the number of open blocks, so collections stay off until the outermost block ends "
-             "(c04_lock_counts_open_blocks, with c04_locked_noop).",
+             "(c04_lock_counts_open_blocks, with c04_locked_noop); no generator of the library yields inside such a block "
+             "(translator obligation c04_lock_never_held_across_yield), so the lock is never held while an iterator is "
+             "suspended; a stream holds partially consumed iterators of seven kinds while another document is released and "
+             "collected.",
         note=TB + "Partial: when CPython collects and which temporaries library frames hold is runtime behaviour - explored "
              "(forced, threshold 1), not modelled. Fixed findings: head-text-node-only (3993e00), "
              "detach-retain-reordered-by-collection (cf2d205), index-lookups-across-a-collection (141256e).",
